@@ -2,8 +2,9 @@
    applies the schedule value of the global batch independent of the worker count.
    Statements only; proofs are in Proofs.v (re-checked against the regenerated gen/Strength.v on every run).
    `tree` ranges over every class that defines _scale_strength (leaf), KDTransforms without scaling (Opaque),
-   plain callables (Foreign) and arbitrarily nested KDComposeTransform (Compose); the random-apply wrappers
-   (KDRandomColorJitter, ...) are leaves whose record contains the record of the wrapped transform. *)
+   plain callables (Foreign) and arbitrarily nested containers (Compose: KDComposeTransform and its subclasses,
+   KDTransformChoice, and the one-member containers KDRandomApply / PatchwiseTransform); wrappers around a member of
+   fixed class (KDRandomColorJitter, KDThreeAugment, ...) are leaves whose record contains the members' records. *)
 From Coq Require Import ZArith QArith Qminmax List Bool.
 Import ListNotations.
 From KD Require Import C15.Base C15.gen.Strength C15.Sched C15.Spec C15.Proofs.
@@ -34,6 +35,24 @@ Theorem scale_one_restores_after_any_history : forall fs t, tree_wf t -> tree_co
   tree_eq (fold_left tree_scale (fs ++ [1%Q]) t) t.
 Proof. exact tree_one_restores_after. Qed.
 Print Assumptions scale_one_restores_after_any_history.
+
+(* every range the sampling draws from stays a range (lb <= ub, magnitude_min <= magnitude <= magnitude_max,
+   sigma_lb <= sigma_ub; lower bounds that must be >= 0 stay >= 0) after scaling by any factor in [0, 1], under the
+   domain premise: the constructor arguments were in torchvision's domain (tree_wf) and the constructed ranges were
+   ordered (tree_dom); both premises are evaluated on every real instance by the check *)
+Theorem ranges_stay_ordered : forall t f, (0 <= f)%Q -> (f <= 1)%Q -> tree_wf t -> tree_dom t ->
+  tree_ordered (tree_scale t f).
+Proof. exact tree_ordered_scaled. Qed.
+Print Assumptions ranges_stay_ordered.
+
+Theorem ranges_stay_ordered_after_any_history : forall fs t f, (0 <= f)%Q -> (f <= 1)%Q -> tree_wf t -> tree_dom t ->
+  tree_ordered (fold_left tree_scale (fs ++ [f]) t).
+Proof. exact tree_ordered_after. Qed.
+Print Assumptions ranges_stay_ordered_after_any_history.
+
+Theorem constructed_ranges_ordered : forall t, tree_constructed t -> tree_dom t -> tree_ordered t.
+Proof. exact tree_ordered_constructed. Qed.
+Print Assumptions constructed_ranges_ordered.
 
 (* ---- scheduled transform ---- *)
 Open Scope Z_scope.
@@ -99,6 +118,20 @@ Theorem local_index_counts_earlier_samples : forall W B n, 0 < W -> 0 < B ->
 Proof. exact rr_local_counts. Qed.
 Print Assumptions local_index_counts_earlier_samples.
 
+(* several DataLoader iterators (one per epoch) over PERSISTENT workers, number of workers dividing the batches per
+   epoch: the index computed for every sample (j-th of the batch) of batch k of iterator e is the global batch e*bpe + k *)
+Theorem several_iterators_persistent_workers_aligned : forall W B bpe e k j nb inner,
+  0 < W -> 0 < B -> bpe mod W = 0 -> 0 <= e -> 0 <= k < bpe -> 0 <= j < B ->
+  batch_idx (mk_wstate (k mod W) W B nb ((e * (bpe / W) + k / W) * B + j) inner) = e * bpe + k.
+Proof. exact persistent_aligned. Qed.
+Print Assumptions several_iterators_persistent_workers_aligned.
+
+(* ... and what the recorded finding is: workers re-created per iterator compute k for batch k of EVERY iterator *)
+Theorem several_iterators_fresh_workers_restart_schedule : forall W B k j nb inner, 0 < W -> 0 < B -> 0 <= k -> 0 <= j < B ->
+  batch_idx (mk_wstate (k mod W) W B nb ((k / W) * B + j) inner) = k.
+Proof. exact fresh_workers_restart. Qed.
+Print Assumptions several_iterators_fresh_workers_restart_schedule.
+
 (* ---- non-vacuity ---- *)
 Open Scope Q_scope.
 Definition ex_cj : KDColorJitter_st :=
@@ -108,8 +141,14 @@ Definition ex_tree : tree :=
   Compose [Leaf (L_KDColorJitter ex_cj); Opaque; Foreign;
            Compose [Leaf (L_KDSolarize (KDSolarize_mk (NI 128) (NI 128)));
                     Leaf (L_KDRandomRotation (KDRandomRotation_mk (- (30 # 1)) (30 # 1) (- (30 # 1)) (30 # 1)))]].
-Example ex_tree_premises : tree_wfb ex_tree = true /\ tree_constructedb ex_tree = true.
-Proof. vm_compute. split; reflexivity. Qed.
+Example ex_tree_premises : tree_wfb ex_tree = true /\ tree_constructedb ex_tree = true /\ tree_domb ex_tree = true.
+Proof. vm_compute. repeat split; reflexivity. Qed.
+Example ex_tree_dom : tree_dom ex_tree.
+Proof. unfold ex_tree, ex_cj. cbv -[Qeq Qle]. repeat split; try discriminate. Qed.
+(* the ordering is not trivially true: it fails on an inverted range *)
+Example ex_not_ordered :
+  tree_orderedb (Leaf (L_KDRandomRotation (KDRandomRotation_mk (30 # 1) (- (30 # 1)) (30 # 1) (- (30 # 1))))) = false.
+Proof. vm_compute. reflexivity. Qed.
 Example ex_tree_wf : tree_wf ex_tree /\ tree_constructed ex_tree.
 Proof.
   unfold ex_tree, ex_cj. cbv -[Qeq Qle]. repeat split; try reflexivity; try discriminate.
